@@ -273,7 +273,7 @@ def amplification(case, *stats):
     return 1.0 / min(est) if est else 1e16
 
 
-def _same(typ, v1, v2, rtol, amp):
+def _same(typ, v1, v2, rtol, amp, floor=0.0):
     if typ in ('niter', 'restart'):
         return v1 == v2
     if typ == 'u':
@@ -281,7 +281,8 @@ def _same(typ, v1, v2, rtol, amp):
         return v1.shape == v2.shape and np.abs(v1 - v2).max() <= rtol * max(1.0, np.abs(v1).max())
     if v1 is None or v2 is None:
         return v1 is v2
-    return abs(v1 - v2) <= rtol * max(abs(v1), abs(v2)) + 1e-15 * amp
+    # residuals are differences of O(|u|) quantities: their rounding error is absolute, of the size of a few ulp of the solution
+    return abs(v1 - v2) <= rtol * max(abs(v1), abs(v2)) + 1e-15 * amp + (floor if typ == 'residual_post_step' else 0.0)
 
 
 def compare_runs(r, ser, par, P, what, amp=1.0):
@@ -310,6 +311,8 @@ def compare_runs(r, ser, par, P, what, amp=1.0):
         return g
 
     ga, gb = groups(ser), groups(par)
+    usc = max([1.0] + [float(np.abs(np.asarray(v, dtype=complex)).max()) for k, v in ser.items() if k.type == 'u'])
+    floor = 64 * eps * n * usc * amp
     for typ in TYPES:
         ka = sorted(k for k in ga if k[0] == typ)
         kb = sorted(k for k in gb if k[0] == typ)
@@ -322,9 +325,9 @@ def compare_runs(r, ser, par, P, what, amp=1.0):
         for k in ka:
             A, B = ga[k], gb[k]
             small, large = (A, B) if len(A) <= len(B) else (B, A)
-            ok = all(any(_same(typ, v1, v2, rtol, amp) for t2, v2 in large) for t1, v1 in small)
+            ok = all(any(_same(typ, v1, v2, rtol, amp, floor) for t2, v2 in large) for t1, v1 in small)
             if len(A) == len(B) == 1:
-                ok = _same(typ, A[0][1], B[0][1], rtol, amp)
+                ok = _same(typ, A[0][1], B[0][1], rtol, amp, floor)
             if not ok:
                 show = (lambda v: f'{np.asarray(v).ravel()[:3]}') if typ == 'u' else repr
                 r.fail(f'{what}-{typ}-value', f't={A[0][0]!r} restarts={k[2]} slot={k[3]}: serial {[show(v) for t, v in A]}, MPI {[show(v) for t, v in B]}')
